@@ -76,6 +76,7 @@ Definition dec_dinner (l : list Z) : option (dinner * list Z) :=
   | k :: t =>
       if k =? 0 then match t with [] => None | c :: t' => Some (DIChar c, t') end
       else if k =? 1 then s <- dec_bytes t ;; Some (DIStr (fst s), snd s)
+      else if k =? 3 then s <- dec_bytes t ;; Some (DIStrS (fst s), snd s)
       else None
   end.
 
@@ -85,6 +86,7 @@ Definition dec_dpiece (l : list Z) : option (dpiece * list Z) :=
   | k :: t =>
       if k =? 0 then match t with [] => None | c :: t' => Some (DChar c, t') end
       else if k =? 1 then s <- dec_bytes t ;; Some (DStr (fst s), snd s)
+      else if k =? 3 then s <- dec_bytes t ;; Some (DStrS (fst s), snd s)
       else c <- dec_count t ;; r <- dec_n dec_dinner (fst c) (snd c) ;; Some (DSub (fst r), snd r)
   end.
 
